@@ -1212,7 +1212,7 @@ theorem entriesCoded_compute {st st' : St R} (h : EntriesCoded st) {fn : Fn R} {
   · cases hc
   · cases hc
     intro i hi
-    simp only [keys_dset] at hi
+    simp only [afterCall, keys_dset] at hi
     split at hi
     · exact h i hi
     · rcases List.mem_append.mp hi with hi | hi
@@ -1329,8 +1329,8 @@ theorem canonBody_agree {E : Env} {s : Sig} {ig : List Key} : ∀ {b₁ b₂ : L
       simp only [hk, if_false, hh, ih]
 
 /-- A plain function that returns its non-ignored bound arguments `Respects` its arguments. -/
-theorem respects_canonBody (E : Env) (fid : Nat) (s : Sig) (ig : List Key) :
-    Respects E ⟨fid, .func s, ig, canonBody E s ig⟩ :=
+theorem respects_canonBody (E : Env) (fid : Nat) (s : Sig) (ig : List Key) (eff : Call → Call) :
+    Respects E ⟨fid, .func s, ig, canonBody E s ig, eff⟩ :=
   fun _ _ _ _ _ _ h => canonBody_agree h
 
 /-- values: id `i` ↦ the int `i`, except 7 ↦ `{'x': 1, 'y': [2.0]}` and 8 ↦ the same dict built in
@@ -1342,9 +1342,13 @@ def envEx : Env where
     else .int i
   name := fun n => [97 + n]
 
-/-- `def f(a, b=5, *args, **kw)` cached with `ignore=['b']`; it returns its bound arguments. -/
+/-- `def f(a, b=5, *args, **kw)` cached with `ignore=['b']`; it returns its bound arguments (as passed),
+and it MUTATES a positional dict argument in place (`a['x'] = a.pop('x')`: value 7 becomes value 8, the
+same items in the other insertion order). -/
 def sigEx : Sig := [⟨0, .posKw, none⟩, ⟨1, .posKw, some 5⟩, ⟨2, .varPos, none⟩, ⟨3, .varKw, none⟩]
-def fnEx : Fn (List (Nat × PyVal)) := ⟨0, .func sigEx, [.name 1], canonBody envEx sigEx [.name 1]⟩
+def fnEx : Fn (List (Nat × PyVal)) :=
+  ⟨0, .func sigEx, [.name 1], canonBody envEx sigEx [.name 1],
+    fun c => ⟨c.args.map fun v => if v = 7 then 8 else v, c.kwargs⟩⟩
 
 /-- a digest function that is NOT injective (it keeps 30 bytes) but has no collision among the keys
 of `histEx` -/
@@ -1403,7 +1407,7 @@ set_option exponentiation.threshold 1100 in
 theorem univOK_histEx : UnivOK hEx envEx (callsOf histEx) where
   names := namesOK_envEx
   cal := fun p hp => by rw [fn_histEx p hp]; exact .funcLike (.func (by decide))
-  respects := fun p hp => by rw [fn_histEx p hp]; exact respects_canonBody envEx 0 sigEx [.name 1]
+  respects := fun p hp => by rw [fn_histEx p hp]; exact respects_canonBody envEx 0 sigEx [.name 1] _
   fids := fun p hp q hq _ => by rw [fn_histEx p hp, fn_histEx q hq]
   calls := fun p hp => by
     rw [calls_histEx] at hp; simp at hp
@@ -1432,6 +1436,209 @@ theorem univOK_histEx : UnivOK hEx envEx (callsOf histEx) where
 
 /-- `hEx` is not injective. -/
 theorem hEx_not_injective : hEx [1] = hEx [2] ∧ ([1] : Bs) ≠ [2] := by decide
+
+/-! ## functions that mutate their arguments: the key is that of the arguments AS PASSED -/
+
+/-- `id` is the key — function id, and args id computed from the arguments AS PASSED — of the call
+the operation makes. -/
+def KeyOfOp (H : Bs → Bs) (E : Env) (id : Nat × Bs) (op : Op R) : Prop :=
+  ∃ fn c, op.callOf = some (fn, c) ∧ id.1 = fn.fid ∧ argsId H E fn.cal fn.ig c = .ok id.2
+
+theorem mem_keys_iic {st : St R} {id id' : Nat × Bs} {cb : Bool}
+    (h : id ∈ (isInCacheAndValid st id' cb).2.entries.map Prod.fst) : id ∈ st.entries.map Prod.fst := by
+  by_cases hc : id'.1 ∈ st.coded
+  · rw [iic_of_coded cb hc] at h
+    cases hd : dget id' st.entries with
+    | none => rw [hd] at h; exact h
+    | some r =>
+      rw [hd] at h
+      cases cb with
+      | true => exact h
+      | false => exact ((dpop_sublist _ _).map Prod.fst).subset h
+  · rw [iic_of_not_coded cb hc] at h; exact h
+
+theorem mem_keys_compute {st st' : St R} {fn : Fn R} {id id' : Nat × Bs} {c : Call} {v : R}
+    (hc : compute st fn id' c = .ok (v, st')) (h : id ∈ st'.entries.map Prod.fst) :
+    id ∈ st.entries.map Prod.fst ∨ id = id' := by
+  unfold compute at hc
+  split at hc
+  · cases hc
+  · cases hc
+    simp only [afterCall, keys_dset] at h
+    split at h
+    · exact .inl h
+    · rcases List.mem_append.mp h with h | h
+      · exact .inl h
+      · exact .inr (by simpa using h)
+
+theorem mem_keys_cachedCall {H : Bs → Bs} {E : Env} {st st' : St R} {fn : Fn R} {c : Call} {cb : Bool}
+    {res : Except BindErr (R × Bool)} {id : Nat × Bs}
+    (hc : cachedCall H E st fn c cb = .ok (res, st')) (h : id ∈ st'.entries.map Prod.fst) :
+    id ∈ st.entries.map Prod.fst ∨ (id.1 = fn.fid ∧ argsId H E fn.cal fn.ig c = .ok id.2) := by
+  unfold cachedCall at hc
+  split at hc
+  · cases hc
+  · rename_i k hk
+    simp only at hc
+    split at hc
+    · cases hc; exact .inl (mem_keys_iic h)
+    · split at hc
+      · cases hc; exact .inl (mem_keys_iic h)
+      · rename_i v st'' hcomp
+        cases hc
+        rcases mem_keys_compute hcomp h with h | h
+        · exact .inl (mem_keys_iic h)
+        · subst h; exact .inr ⟨rfl, hk⟩
+
+/-- One step of the code (either version): a key of the store afterwards was a key before, or is the
+key of the ARGUMENTS AS PASSED of the call the operation makes — whatever the function does to its
+arguments (`fn.effect` is arbitrary). -/
+theorem mem_keys_step {ver : Version} {H : Bs → Bs} {E : Env} {st : St R} {id : Nat × Bs} (op : Op R)
+    (h : id ∈ (step ver H E st op).2.entries.map Prod.fst) :
+    id ∈ st.entries.map Prod.fst ∨ KeyOfOp H E id op := by
+  cases op with
+  | call fn c cb =>
+    revert h
+    simp only [step]
+    cases hc : cachedCall H E st fn c cb with
+    | error e => exact fun h => .inl h
+    | ok r =>
+      obtain ⟨res, st'⟩ := r
+      have key := fun h => mem_keys_cachedCall (id := id) hc h
+      cases res with
+      | error e => exact fun h => (key h).imp (fun h => h) fun h => ⟨fn, c, rfl, h.1, h.2⟩
+      | ok vx => exact fun h => (key h).imp (fun h => h) fun h => ⟨fn, c, rfl, h.1, h.2⟩
+  | shelve fn c cb =>
+    revert h
+    simp only [step]
+    cases hc : cachedCall H E st fn c cb with
+    | error e => exact fun h => .inl h
+    | ok r =>
+      obtain ⟨res, st'⟩ := r
+      have key := fun h => mem_keys_cachedCall (id := id) hc h
+      cases res with
+      | error e => exact fun h => (key h).imp (fun h => h) fun h => ⟨fn, c, rfl, h.1, h.2⟩
+      | ok vx => exact fun h => (key h).imp (fun h => h) fun h => ⟨fn, c, rfl, h.1, h.2⟩
+  | get fn c =>
+    revert h
+    simp only [step]
+    cases argsId H E fn.cal fn.ig c with
+    | error e => exact fun h => .inl h
+    | ok k => simp only; cases dget (fn.fid, k) st.entries <;> exact fun h => .inl h
+  | force fn c =>
+    revert h
+    simp only [step]
+    cases hk : argsId H E fn.cal fn.ig c with
+    | error e => exact fun h => .inl h
+    | ok k =>
+      simp only
+      cases hcomp : compute (beforeForce ver st fn.fid) fn (fn.fid, k) c with
+      | error e => exact fun h => .inl (by rwa [beforeForce_entries] at h)
+      | ok r =>
+        obtain ⟨v, st'⟩ := r
+        intro h
+        rcases mem_keys_compute hcomp h with h | h
+        · exact .inl (by rwa [beforeForce_entries] at h)
+        · subst h; exact .inr ⟨fn, c, rfl, rfl, hk⟩
+  | check fn c cb =>
+    revert h
+    simp only [step]
+    cases argsId H E fn.cal fn.ig c with
+    | error e => exact fun h => .inl h
+    | ok k => exact fun h => .inl (mem_keys_iic h)
+  | clearFn fn => exact .inl ((List.filter_sublist.map _).subset h)
+  | clearAll => simp [step] at h
+  | evict ids => exact .inl (((evictAll_sublist ids _).map _).subset h)
+  | fresh => exact .inl h
+
+theorem mem_keys_exec {ver : Version} {H : Bs → Bs} {E : Env} {id : Nat × Bs} :
+    ∀ (ops : List (Op R)) {st : St R}, id ∈ (exec ver H E st ops).entries.map Prod.fst →
+      id ∈ st.entries.map Prod.fst ∨ ∃ op ∈ ops, KeyOfOp H E id op
+  | [], _, h => .inl h
+  | op :: ops, st, h => by
+    rcases mem_keys_exec ops (st := (step ver H E st op).2) h with h | ⟨o, ho, hk⟩
+    · rcases mem_keys_step op h with h | h
+      · exact .inl h
+      · exact .inr ⟨op, List.mem_cons_self, h⟩
+    · exact .inr ⟨o, List.mem_cons_of_mem _ ho, hk⟩
+
+/-- After a completed forced call (repaired code) its entry — filed under the key of the arguments
+as passed — is present. -/
+theorem present_after_force {H : Bs → Bs} {E : Env} {st : St R} {fn : Fn R} {c : Call} {k : Bs} {v : R}
+    {x : Bool} (hk : argsId H E fn.cal fn.ig c = .ok k)
+    (ho : (step .fixed H E st (.force fn c)).1 = .value v x) :
+    Present (fn.fid, k) (step .fixed H E st (.force fn c)).2 := by
+  simp only [step, hk, beforeForce] at ho ⊢
+  cases hb : bindOf fn.cal c with
+  | error e => simp [compute, hb] at ho
+  | ok b =>
+    simp only [compute, afterCall, hb] at ho ⊢
+    exact ⟨checkCode_coded_self st fn.fid, by
+      show (dget (fn.fid, k) (dset (fn.fid, k) _ _)).isSome
+      rw [dget_dset_self]; rfl⟩
+
+/-- `check_call_in_cache` on a present entry (callback content): `True`, nothing changes. -/
+theorem check_hit {ver : Version} {H : Bs → Bs} {E : Env} {st : St R} {fn : Fn R} {c : Call} {k : Bs}
+    {v : R} (hk : argsId H E fn.cal fn.ig c = .ok k) (hc : fn.fid ∈ st.coded)
+    (hv : dget (fn.fid, k) st.entries = some v) :
+    step ver H E st (.check fn c true) = (.flag true, st) := by
+  simp [step, hk, isInCacheAndValid, checkCode_of_mem hc, hv]
+
+/-- A present entry serves the call and the check. -/
+theorem served_of_present {ver : Version} {H : Bs → Bs} {E : Env} {st : St R} {fn : Fn R} {c : Call}
+    {k : Bs} (hk : argsId H E fn.cal fn.ig c = .ok k) (hp : Present (fn.fid, k) st) :
+    ∃ v', step ver H E st (.call fn c true) = (.value v' false, st) ∧
+      step ver H E st (.check fn c true) = (.flag true, st) := by
+  cases hv : dget (fn.fid, k) st.entries with
+  | none => have := hp.2; rw [hv] at this; cases this
+  | some v' => exact ⟨v', call_hit hk hp.1 hv, check_hit hk hp.1 hv⟩
+
+/-! ### what a function does to its arguments is invisible to the code as it is -/
+
+/-- The same cached function with another effect on its arguments. -/
+def Fn.withEffect (fn : Fn R) (e : Call → Call) : Fn R := { fn with effect := e }
+
+/-- The same operation on the function with another effect on its arguments. -/
+def Op.withEffects (e : Fn R → Call → Call) : Op R → Op R
+  | .call fn c cb => .call (fn.withEffect (e fn)) c cb
+  | .shelve fn c cb => .shelve (fn.withEffect (e fn)) c cb
+  | .get fn c => .get (fn.withEffect (e fn)) c
+  | .force fn c => .force (fn.withEffect (e fn)) c
+  | .check fn c cb => .check (fn.withEffect (e fn)) c cb
+  | .clearFn fn => .clearFn (fn.withEffect (e fn))
+  | .clearAll => .clearAll
+  | .evict ids => .evict ids
+  | .fresh => .fresh
+
+theorem step_withEffects (ver : Version) (H : Bs → Bs) (E : Env) (st : St R) (e : Fn R → Call → Call)
+    (op : Op R) : step ver H E st (op.withEffects e) = step ver H E st op := by
+  cases op <;> rfl
+
+theorem run_exec_withEffects (ver : Version) (H : Bs → Bs) (E : Env) (e : Fn R → Call → Call) :
+    ∀ (ops : List (Op R)) (st : St R),
+      run ver H E st (ops.map (Op.withEffects e)) = run ver H E st ops ∧
+        exec ver H E st (ops.map (Op.withEffects e)) = exec ver H E st ops
+  | [], _ => ⟨rfl, rfl⟩
+  | op :: ops, st => by
+    simp only [List.map_cons, run, exec, step_withEffects]
+    exact ⟨by rw [(run_exec_withEffects ver H E e ops _).1], (run_exec_withEffects ver H E e ops _).2⟩
+
+/-! ### a function that sorts its list argument in place -/
+
+/-- values: 0 ↦ `[3, 1, 2]`, 1 ↦ `[1, 2, 3]`, every other id `i` ↦ the int `i`; identifiers as `envEx`. -/
+def envMut : Env where
+  val := fun i =>
+    if i = 0 then .list [.int 3, .int 1, .int 2] else if i = 1 then .list [.int 1, .int 2, .int 3] else .int i
+  name := fun n => [97 + n]
+
+/-- `def f(a): r = list(a); a.sort(); return r` — returns its argument AS PASSED and sorts it IN PLACE:
+called with `[3, 1, 2]` (value 0) it leaves `[1, 2, 3]` (value 1) in the caller's list. -/
+def fnSort : Fn (List (Nat × Val)) :=
+  ⟨0, .func [⟨0, .posKw, none⟩], [], fun b => b,
+    fun c => ⟨c.args.map fun v => if v = 0 then 1 else v, c.kwargs.map fun kv => (kv.1, if kv.2 = 0 then 1 else kv.2)⟩⟩
+
+/-- an injective digest -/
+def hId : Bs → Bs := fun s => s
 
 
 end JoblibModel.MemoryCache
